@@ -61,6 +61,25 @@ impl ILoggerV2 for HLogger {
 /// has no class / module header (its uses list, members and the other flags still apply; the parent is ignored), flag `u` = it references unknown types, flag `x` = a method
 /// body that goes through the uses lists and the parent chain, flag `h` = a method `UseInh<stem>` that
 /// mentions `self.<M>` for every method name of the workspace (probes `use:<M>`: hierarchy requests from a USE site).
+///
+/// What stands ABOVE the header and how the file is encoded (none of these changes what the file declares; without
+/// them the text is byte for byte what it was before they existed):
+/// flag `m` = the file starts with a UTF-8 byte order mark (the server reads it as the character U+FEFF in line 0, so
+/// every position of line 0 is one column further right), flag `b` = two blank lines at the top, flag `c` = a comment
+/// line (file banner) above the header, flag `k` = a constant above the header (mode `tree` only: the lock model has
+/// no declaration before the header), flag `a` = an annotation line `[Annotated]` directly above the header (`k`, `a`
+/// are ignored on a file without header), flag `l` = a comment line with two Latin-1 letters directly below the header,
+/// the whole file written as Latin-1 (bytes 0xE9 / 0xEF: NOT valid UTF-8), flag `r` = CRLF line ends.
+///
+/// Where the file is: flag `s` = in the directory `pkg/sub<stem>/` below the workspace root, flag `g` = the extension is
+/// written `.GOD` (the Gold IDE lives on a case-insensitive file system).
+/// flag `e` (together with `n`) = an EMPTY file: nothing but what `m b c l` put there (zero bytes, a byte order mark only,
+/// blank lines only, comments only) — no constant, no uses list, no members.  flag `d` = the header is `module <stem>`
+/// instead of `class <stem> [(parent)]` (a module has no parent: it is not written; mode `lock` only).
+///
+/// A uses list may name an entity that has no file in the workspace (a "ghost") at any position.  With flag `x` the
+/// names of the uses line and the type names of the `var o<i> : <used>` locals are probes (`uses-name<i>` / `used-type<i>`,
+/// for a ghost `uses-ghost<i>` / `ghost-type<i>`), and for every ghost the body ends with a completion `o<i>.` (`complete-ghost<i>`).
 #[derive(Debug, Clone)]
 pub struct FileSpec {
     pub stem: String,
@@ -120,6 +139,10 @@ pub struct Workspace {
 }
 impl Drop for Workspace {
     fn drop(&mut self) {
+        // VERIF_KEEP_WS=1: leave the materialised files under .cache/ws/ (to look at the bytes of a replayed case)
+        if std::env::var("VERIF_KEEP_WS").is_ok() {
+            return;
+        }
         let _ = std::fs::remove_dir_all(&self.root);
     }
 }
@@ -150,25 +173,54 @@ pub fn is_field(m: &str) -> bool {
     m.starts_with('f') || m.starts_with('F')
 }
 
-fn render(spec: &FileSpec, all: &[FileSpec]) -> (String, Option<(usize, usize)>, Option<(usize, usize)>, Vec<(String, (usize, usize))>, Vec<(String, (usize, usize))>) {
+fn render(spec: &FileSpec, all: &[FileSpec]) -> (Vec<u8>, Option<(usize, usize)>, Option<(usize, usize)>, Vec<(String, (usize, usize))>, Vec<(String, (usize, usize))>) {
     let mut t = Text { lines: Vec::new() };
     let mut class_pos = None;
     let mut parent_pos = None;
     let mut member_pos = Vec::new();
     let mut probes = Vec::new();
     let headerless = spec.flags.contains('n');
+    let has = |c: char| spec.flags.contains(c);
+    let is_ghost = |u: &str| !all.iter().any(|f| f.stem.to_uppercase() == u.to_uppercase());
+    if has('b') {
+        t.push(String::new());
+        t.push(String::new());
+    }
+    if has('c') {
+        t.push(format!("; {}.god -- file banner, the header follows", spec.stem));
+    }
+    if has('k') && !headerless {
+        t.push(format!("const cAbove{} = 'k'", spec.stem));
+    }
+    if has('a') && !headerless {
+        t.push("[Annotated]".to_string());
+    }
+    if has('e') {
+        if has('l') {
+            t.push("; caf\u{e9} na\u{ef}ve".to_string());
+        }
+        let bytes = if t.lines.is_empty() { encode_text("", &spec.flags) } else { encode(&t, &spec.flags) };
+        return (bytes, None, None, member_pos, probes);
+    }
     if headerless {
         // a file without a class / module header: a comment and a stray constant ...
         t.push("; no class in this file".to_string());
         t.push("const cLonely = 'x'".to_string());
         if spec.uses.is_empty() && spec.members.is_empty() && !spec.flags.contains('u') && !spec.flags.contains('x') && !spec.flags.contains('h') {
-            return (t.lines.join("\n") + "\n", None, None, member_pos, probes);
+            if has('l') {
+                t.push("; caf\u{e9} na\u{ef}ve".to_string());
+            }
+            return (encode(&t, &spec.flags), None, None, member_pos, probes);
         }
         // ... followed by everything a class file has below its header (uses list, types,
         // fields incl. unknown types, methods, bodies); a parent is ignored: there is no header to name it
     }
     match &spec.parent {
         _ if headerless => {}
+        _ if has('d') => {
+            let l = t.push(format!("module {}", spec.stem));
+            class_pos = Some((l, 7 + 1.min(spec.stem.len() - 1)));
+        }
         Some(p) => {
             let l = t.push(format!("class {} ({})", spec.stem, p));
             class_pos = Some((l, 6 + 1.min(spec.stem.len() - 1)));
@@ -179,9 +231,20 @@ fn render(spec: &FileSpec, all: &[FileSpec]) -> (String, Option<(usize, usize)>,
             class_pos = Some((l, 6 + 1.min(spec.stem.len() - 1)));
         }
     }
+    if has('l') {
+        t.push("; caf\u{e9} na\u{ef}ve".to_string());
+    }
     t.push(String::new());
     if !spec.uses.is_empty() {
-        t.push(format!("uses {}", spec.uses.join(", ")));
+        let l = t.push(format!("uses {}", spec.uses.join(", ")));
+        if has('x') {
+            let mut col = 5;
+            for (i, u) in spec.uses.iter().enumerate() {
+                let label = if is_ghost(u) { "uses-ghost" } else { "uses-name" };
+                probes.push((format!("{}{}", label, i), (l, col + 1.min(u.len() - 1))));
+                col += u.len() + 2;
+            }
+        }
         t.push(String::new());
     }
     // a type other entities can only reach through their uses lists
@@ -238,7 +301,9 @@ fn render(spec: &FileSpec, all: &[FileSpec]) -> (String, Option<(usize, usize)>,
                 let canonical = all.iter().find(|f| f.stem.to_uppercase() == u.to_uppercase()).unwrap();
                 t.push(format!("   var r{} : t{}Rec", i, canonical.stem));
             }
-            t.push(format!("   var o{} : {}", i, u));
+            let l = t.push(format!("   var o{} : {}", i, u));
+            let label = if is_ghost(u) { "ghost-type" } else { "used-type" };
+            probes.push((format!("{}{}", label, i), (l, format!("   var o{} : ", i).len() + 1.min(u.len() - 1))));
         }
         if spec.flags.contains('u') {
             t.push("   var nowhere : aNoSuchTypeAnywhere".to_string());
@@ -253,12 +318,54 @@ fn render(spec: &FileSpec, all: &[FileSpec]) -> (String, Option<(usize, usize)>,
             let l = t.push(format!("   WriteLn(o{}.NotDeclaredAnywhere)", i));
             probes.push((format!("used-missing-member{}", i), (l, 15)));
         }
+        for (i, u) in spec.uses.iter().enumerate() {
+            if is_ghost(u) {
+                let l = t.push(format!("   o{}.", i));
+                probes.push((format!("complete-ghost{}", i), (l, format!("   o{}.", i).len())));
+            }
+        }
         let l = t.push("   self.".to_string());
         probes.push(("complete-self".to_string(), (l, 8)));
         t.push("endproc".to_string());
         t.push(String::new());
     }
-    (t.lines.join("\n") + "\n", class_pos, parent_pos, member_pos, probes)
+    if has('m') {
+        // the byte order mark is a character of line 0 for the server
+        let shift = |p: &mut (usize, usize)| {
+            if p.0 == 0 {
+                p.1 += 1
+            }
+        };
+        class_pos.iter_mut().for_each(shift);
+        parent_pos.iter_mut().for_each(shift);
+        member_pos.iter_mut().for_each(|m| shift(&mut m.1));
+        probes.iter_mut().for_each(|m| shift(&mut m.1));
+    }
+    (encode(&t, &spec.flags), class_pos, parent_pos, member_pos, probes)
+}
+
+/// the bytes of the file: `\n` or (flag `r`) `\r\n` line ends, UTF-8 or (flag `l`) Latin-1, (flag `m`) a byte order mark first
+fn encode(t: &Text, flags: &str) -> Vec<u8> {
+    let nl = if flags.contains('r') { "\r\n" } else { "\n" };
+    encode_text(&(t.lines.join(nl) + nl), flags)
+}
+
+fn encode_text(text: &str, flags: &str) -> Vec<u8> {
+    let mut out: Vec<u8> = Vec::new();
+    if flags.contains('m') {
+        out.extend_from_slice(&[0xEF, 0xBB, 0xBF]);
+    }
+    if flags.contains('l') {
+        out.extend(text.chars().map(|c| if (c as u32) < 256 { c as u32 as u8 } else { b'?' }));
+    } else {
+        out.extend_from_slice(text.as_bytes());
+    }
+    out
+}
+
+/// the text of a file as the server reads it: bytes, lossy conversion (the harness must not be stricter than the server)
+pub fn read_lossy(path: &std::path::Path) -> String {
+    std::fs::read(path).map(|b| String::from_utf8_lossy(&b).to_string()).unwrap_or_default()
 }
 
 /// writes the workspace below `<verif>/.cache/ws/` (removed again when dropped)
@@ -271,7 +378,10 @@ pub fn materialise(files: &[FileSpec]) -> Workspace {
     let mut out = Vec::new();
     for f in files {
         let (text, class_pos, parent_pos, member_pos, probes) = render(f, files);
-        let path = root.join(format!("{}.god", f.stem));
+        // flag `s`: the file lies two directories below the root; flag `g`: its extension is `.GOD`
+        let dir = if f.flags.contains('s') { root.join("pkg").join(format!("sub{}", f.stem)) } else { root.clone() };
+        std::fs::create_dir_all(&dir).unwrap();
+        let path = dir.join(format!("{}.{}", f.stem, if f.flags.contains('g') { "GOD" } else { "god" }));
         std::fs::write(&path, text).unwrap();
         let uri = Url::from_file_path(&path).unwrap();
         out.push(MFile { spec: f.clone(), path, uri, class_pos, parent_pos, member_pos, probes });
